@@ -5,11 +5,31 @@
    of states of ANY history of add_field / __call__ / assign_fields / queries on one BitField and the
    instances derived from it (any hierarchy depth, sibling scopes re-using names, fixed and automatic
    positions and lengths, tags, any bit-field length, any interleaving).  "Present together": both
-   listed by enabled_fields for one assignment of values. *)
+   listed by enabled_fields for one assignment of values.
+
+   Tie to the source, re-extracted on every run (Generated/GenBitField.v, fail closed): which scan bound and
+   range test rig/bitfield.py has (the model is parameterised by them) and that the automatic length is
+   int(max_value).bit_length() -- the model's [bitlen] -- and not the floating-point formula used before fix
+   b55359e (C08_auto_length_is_bit_length; with the float formula the completeness theorems below were false of
+   the code from 2^48 - 1 upwards).
+
+   NOT covered by a theorem (harness only: correspondence, independent oracle, Generated/GenBitFieldShape.v):
+   - the forms in which `tags` may be handed over (str / list / set / one-shot iterators) and aliasing of a
+     caller's set object, edits by the caller of what get_tags returned, identity vs equality of int values,
+     a second BitField sharing such objects: Python object-identity effects outside a value-level model;
+   - the RecursionError of _Tree.add_field (histories stop there; excluded from [reachable]);
+   - __repr__, __eq__, the texts of error messages. *)
 From Coq Require Import ZArith List Bool.
 Require Import Rig.Generated.GenBitField Rig.Model.Base Rig.Model.BitField Rig.Spec.BitField Rig.Proofs.BitField.
 Import ListNotations.
 Open Scope Z_scope.
+
+Theorem C08_auto_length_is_bit_length : gen_auto_length_exact = true.
+Proof. exact auto_length_is_bit_length. Qed.
+
+(* ... and [bitlen] has the defining property of int.bit_length *)
+Theorem C08_bitlen_spec : forall v, 0 < v -> 2 ^ (bitlen v - 1) <= v < 2 ^ bitlen v.
+Proof. exact bitlen_spec. Qed.
 
 (* ---------------------------------------------------------------- safety of the layout (U) *)
 
@@ -49,6 +69,30 @@ Theorem C08_value_readback :
     forall i f, In (i, f) (enabled_fields (s_tree st') fv) ->
       exists p l x, frange (s_store st') f = Some (p, l) /\ zassoc i fv = Some x /\ read_field v p l = x.
 Proof. exact reachable_value_readback. Qed.
+
+(* The same for EVERY reachable state in which all fields have a position -- in particular for instances
+   created after assign_fields, the usual use; a complete layout stays complete while no field is added. *)
+Theorem C08_value_readback_any_time :
+  forall st fv v,
+    reachable st -> all_placed (s_len st) (s_tree st) (s_store st) -> In fv (s_insts st) ->
+    get_value st fv None None = Ok v ->
+    forall i f, In (i, f) (enabled_fields (s_tree st) fv) ->
+      exists p l x, frange (s_store st) f = Some (p, l) /\ zassoc i fv = Some x /\ read_field v p l = x.
+Proof. exact value_readback_any_time. Qed.
+
+Theorem C08_all_placed_persists :
+  forall st st', reachable st -> reaches st st' -> s_tree st' = s_tree st ->
+    all_placed (s_len st) (s_tree st) (s_store st) -> all_placed (s_len st') (s_tree st') (s_store st').
+Proof. exact all_placed_persists. Qed.
+
+(* On what the public methods return only: the position reported by get_location_and_length is where
+   get_value put the value that the attribute access returns. *)
+Theorem C08_reported_position_readback :
+  forall st fv i p l v,
+    reachable st -> all_placed (s_len st) (s_tree st) (s_store st) -> In fv (s_insts st) ->
+    get_location_and_length st fv i = Ok (p, l) -> get_value st fv None None = Ok v ->
+    exists x, zassoc i fv = Some x /\ get_attr st fv i = Ok (Some x) /\ read_field v p l = x.
+Proof. exact reported_position_readback. Qed.
 
 (* The mask is exactly the union of the present fields' bits; with a tag, of the present fields
    carrying the tag; with a field, that field's bits. *)
@@ -121,6 +165,16 @@ Theorem C08_keys_distinct :
     (exists i f, In (i, f) (enabled_fields (s_tree st') fv1) /\ zassoc i fv1 <> zassoc i fv2) ->
     ~ keys_intersect v1 m1 v2 m2.
 Proof. exact reachable_keys_distinct. Qed.
+
+Theorem C08_keys_distinct_any_time :
+  forall st fv1 fv2 v1 m1 v2 m2,
+    reachable st -> all_placed (s_len st) (s_tree st) (s_store st) ->
+    In fv1 (s_insts st) -> In fv2 (s_insts st) ->
+    get_value st fv1 None None = Ok v1 -> get_mask st fv1 None None = Ok m1 ->
+    get_value st fv2 None None = Ok v2 -> get_mask st fv2 None None = Ok m2 ->
+    (exists i f, In (i, f) (enabled_fields (s_tree st) fv1) /\ zassoc i fv1 <> zassoc i fv2) ->
+    ~ keys_intersect v1 m1 v2 m2.
+Proof. exact keys_distinct_any_time. Qed.
 
 Theorem C08_key_needs_complete :
   forall st fv v, get_value st fv None None = Ok v -> complete (s_tree st) fv.
@@ -270,6 +324,17 @@ Example C08_layout_instance :
     /\ get_mask st' (nth 4 (s_insts st') []) None None = Ok m2
     /\ (v1, m1, v2, m2) = (265, 783, 672, 992).
 Proof. exact ex_instance. Qed.
+
+(* an instance created after the layout, its key and the read-back of both fields *)
+Example C08_instance_after_layout :
+  let st := exec (init 8) ex_after_ops in
+  reachable st /\ all_placed (s_len st) (s_tree st) (s_store st)
+  /\ nth 3 (s_insts st) [] = [(0, 1); (1, 6)] /\ In (nth 3 (s_insts st) []) (s_insts st)
+  /\ get_value st (nth 3 (s_insts st) []) None None = Ok 22
+  /\ get_location_and_length st (nth 3 (s_insts st) []) 1 = Ok (0, 4)
+  /\ get_location_and_length st (nth 3 (s_insts st) []) 0 = Ok (4, 2)
+  /\ read_field 22 0 4 = 6 /\ read_field 22 4 2 = 1.
+Proof. exact ex_after_instance. Qed.
 
 Example C08_exclusive_guard_satisfiable :
   exists st, reachable st /\ exclusive_children (s_tree st) = true /\ t_children (s_tree st) <> []
